@@ -147,7 +147,12 @@ def with_defaults_trimmed(config: _T, remove_deep_defaults: bool = False) -> _T:
       should_copy = True
       for name, attr_value in list(value.__arguments__.items()):
         param = value.__signature_info__.parameters.get(name, None)
-        if param is None:
+        if param is None or param.kind in (
+            inspect.Parameter.POSITIONAL_ONLY,
+            inspect.Parameter.VAR_POSITIONAL,
+        ):
+          # Not a parameter that can be named: `name` is a **kwargs entry that
+          # happens to be spelled like a positional-only / *args parameter.
           continue
         param_default = (
             deep_defaults[name] if name in deep_defaults else param.default
